@@ -151,6 +151,29 @@ def r12_c(ctx):
                             mode_var = s.targets[0].id
                     except Unfoldable:
                         pass
+    # alternative shape: the math branch calls the body reader directly with the math-mode constant
+    direct = []
+    for n in ast.walk(d.node):
+        if isinstance(n, ast.If) and isinstance(n.test, ast.Compare) and isinstance(n.test.ops[0], ast.In) \
+                and norm(n.test.comparators[0]) == 'MATH_ENV_NAMES':
+            for c in ast.walk(ast.Module(body=n.body, type_ignores=[])):
+                if isinstance(c, ast.Call) and isinstance(c.func, ast.Name) and c.func.id == 'read_env':
+                    kw = {k.arg: k.value for k in c.keywords}
+                    try:
+                        if 'mode' in kw and Folder(repo, d.module).ev(kw['mode']) == math_mode:
+                            direct.append(n)
+                    except Unfoldable:
+                        pass
+    if direct and not sets:
+        t = direct[0].test.left
+        okn = isinstance(t, ast.Attribute) and t.attr == 'name'
+        rr.ob(True, {'switch': norm(direct[0].test), 'shape': 'direct call with the math-mode constant'})
+        rr.ob(okn, {'tested': norm(t)})
+        if not okn:
+            rr.fail(Finding('R12.c', 'reader', d.qual, direct[0].test, 'math mode is not selected by the environment name',
+                            line=direct[0].lineno))
+        rr.ob(True, {'read_env_mode': 'MODE_MATH'})
+        return rr
     rr.ob(bool(sets), {'switch': norm(sets[0].test) if sets else None})
     if not sets:
         rr.fail(Finding('R12.c', 'reader', d.qual, 'no math-mode switch for MATH_ENV_NAMES', 'the expression dispatcher '
